@@ -25,8 +25,8 @@ RULE = ("Fault enumeration. (a) systematic: every fault kind {never quoted, bid-
         "discontinued-then-requoted, none} x position {long, short, flat} x {targeted long, targeted short, target 0, untargeted} "
         "on one contract beside a healthy one, spot and margined; (b) random multi-contract fault combinations injected into broker "
         "histories and into TradingEnv episodes; (c) failpoints: an exception raised (sys.monitoring LINE) at every line, 1st/2nd/3rd "
-        "hit, of Rebalancing.make_trades, Weights._to_nr_contracts, NrContracts._to_weights and Trade.__init__ during a three-trade "
-        "rebalance. Oracle: a non-zero position without its liquidation side makes every valuation entry point raise (never a number "
+        "hit, of every function defined in broker/rebalancing.py, broker/allocation.py and broker/trade.py (found by location, not "
+        "by name) during a three-trade rebalance. Oracle: a non-zero position without its liquidation side makes every valuation entry point raise (never a number "
         "or NaN); flat positions never need a quote; a rebalance needing a missing side raises, a fully quoted one succeeds, and "
         "whenever it raises zero Broker.transact calls happened and positions and len(track_record) are unchanged. Non-trivial = at "
         "least one fault on a held or targeted contract.")
@@ -172,15 +172,46 @@ def _combos():
 
 
 def _fp_codes():
-    return [Rebalancing.make_trades, Weights._to_nr_contracts, NrContracts._to_weights, Trade.__init__]
+    """Code objects of the trade-building code, found by LOCATION (every function and method defined in
+    broker/rebalancing.py, broker/allocation.py and broker/trade.py), not by name: private helpers may be
+    renamed, split or merged without the check noticing."""
+    import inspect
+    import tradingenv.broker.allocation as m_al
+    import tradingenv.broker.rebalancing as m_rb
+    import tradingenv.broker.trade as m_tr
+    codes = []
+    for m in (m_rb, m_al, m_tr):
+        fns = [f for _, f in inspect.getmembers(m, inspect.isfunction) if f.__module__ == m.__name__]
+        for _, cls in inspect.getmembers(m, inspect.isclass):
+            if cls.__module__ != m.__name__:
+                continue
+            for f in vars(cls).values():
+                if isinstance(f, property):
+                    f = f.fget
+                f = getattr(f, "__func__", f)
+                f = getattr(f, "__wrapped__", f)
+                if inspect.isfunction(f):
+                    fns.append(f)
+        for f in fns:
+            c = f.__code__
+            if c not in codes and c.co_filename == getattr(m, "__file__", None):
+                codes.append(c)
+    return sorted(codes, key=lambda c: (c.co_filename, c.co_firstlineno))
+
+
+def _always_judged(code):
+    """Injections in rebalancing.py / allocation.py and in Trade.__init__ are failures 'while the trades are
+    being computed' wherever they happen; other code of trade.py also runs while a trade is EXECUTED, and an
+    injection there is judged only if no execution had begun."""
+    fn = code.co_filename.replace("\\", "/")
+    return fn.endswith("broker/rebalancing.py") or fn.endswith("broker/allocation.py") or code.co_qualname == "Trade.__init__"
 
 
 def _fp_points():
     global _FP_POINTS
     if _FP_POINTS is None:
-        codes = [getattr(f, "__wrapped__", f).__code__ for f in _fp_codes()]
         pts = []
-        for c in codes:
+        for c in _fp_codes():
             lines = sorted({x[2] for x in c.co_lines() if x[2] and x[2] > c.co_firstlineno})
             pts.extend((c, l) for l in lines)
         _FP_POINTS = pts
@@ -239,6 +270,7 @@ def failpoint_case(ctx, j):
     code, line = pts[j]
     fp = monitor.Failpoints([code])
     injected = 0
+    ctx.cat("failpoint-sites:%d" % len(pts))
     try:
         for nth in (1, 2, 3):
             t = datetime(2019, 1, 1)
@@ -260,7 +292,9 @@ def failpoint_case(ctx, j):
                     res = "inj"
                 finally:
                     fp.disarm()
-            if res == "inj":
+            if res == "inj" and cnt.n > 0 and not _always_judged(code):
+                ctx.cat("failpoint-after-execution-began")
+            elif res == "inj":
                 injected += 1
                 h1 = b.holdings_quantity
                 ctx.check("C13:failpoint-atomic",
